@@ -324,3 +324,147 @@ def judge(p, events, meta, svc_name):
             elif any(rq["body"] != s["text"] for rq in c["requests"]):
                 p.finding("body-mismatch", op=op.name.xml, scenario="concurrent-32", status=200, body="resp0", mode=0, result="batch",
                           kind=None, msg="", accepts=32, requests=32)
+
+
+# ------------------------------------------------------------------------------------------------ C07: restrictions
+
+def leaf_variants(v, path=None, ctx=None):
+    """Yield (value', info) with exactly one simple-typed leaf of v replaced by a value violating one facet."""
+    from .gen import flat_members
+    ctx = ctx or {"depth": 0, "optional": False, "repeated": False}
+    if v[0] == "s":
+        st = v[1]
+        for lex, (owner, facet) in sample.simple_violating_values(st):
+            k = 0
+            t = st
+            while t is not owner:
+                t = t.base.comp
+                k += 1
+            yield ("s", st, lex), {"facet": facet, "derivation": "own" if k == 0 else f"inherited-{k}", "lexical": lex, **ctx}
+        return
+    if v[0] != "c":
+        return
+    _, comp, vals = v
+    for i, (m, x) in enumerate(zip(flat_members(comp), vals)):
+        sub = dict(ctx, depth=ctx["depth"] + 1, optional=ctx["optional"] or m["optional"], repeated=ctx["repeated"] or m["repeated"],
+                   position="attribute" if m["kind"] == "attribute" else ctx.get("position", "element"))
+        if isinstance(x, list):
+            for j, it in enumerate(x):
+                for it2, info in leaf_variants(it, None, sub):
+                    nx = list(x)
+                    nx[j] = it2
+                    nv = list(vals)
+                    nv[i] = nx
+                    yield ("c", comp, nv), info
+        elif x is not None:
+            for it2, info in leaf_variants(x, None, sub):
+                nv = list(vals)
+                nv[i] = it2
+                yield ("c", comp, nv), info
+
+
+def stage_restr(p):
+    """C07: check_restrictions(None) on request envelopes with exactly one violating value per reachable position, and the
+    client call for each of them against the listener (no connection may be accepted)."""
+    w = p.ss.wsdl
+    if w is None:
+        return
+    svc_name, methods = discover_client(p)
+    if svc_name is None:
+        return
+    actual_norm = {}
+    for name, fl in methods.items():
+        actual_norm.setdefault(refmap.norm_ident(name), []).extend(fl)
+    r = rng("restr-values", p.label)
+    ev = ElementValues(p, r)
+    fns = []
+    meta = {}
+    for oi, op in enumerate(w.operations):
+        fl = actual_norm.get(op.name.snake, [])
+        if len(fl) != 1:
+            continue
+        f = fl[0]
+        ins = [a for a in f["inputs"] if a["name"] != "self"]
+        if len(ins) != 1:
+            continue
+        req_ty = ins[0]["type"]
+        body_el, hdr_els = _elements_of(op, op.input, op.in_body, op.in_headers)
+        els = [("body", body_el)] + [("header", h) for h in hdr_els]
+        variants = []       # (label, [values per element], info or None)
+        try:
+            for mode in ("full", "lo", "hi", "many"):
+                variants.append((f"valid-{mode}", [ev.value(e, mode) for _, e in els], None))
+            base = variants[0][1]
+            for k, (role, e) in enumerate(els):
+                for nv, info in leaf_variants(base[k], None, {"depth": 0, "optional": False, "repeated": False, "position": "element"}):
+                    vals = list(base)
+                    vals[k] = nv
+                    variants.append((f"viol{len(variants)}", vals, dict(info, part=role)))
+                    if len(variants) >= 44:
+                        break
+            lits = []
+            for label, vals, info in variants:
+                lit, why = envelope_literal(p, req_ty, ev.literal(body_el, vals[0]), [ev.literal(h, v) for h, v in zip(hdr_els, vals[1:])],
+                                            body_el, hdr_els)
+                if lit is None:
+                    raise driver.GLit.Unbuildable(why)
+                lits.append(lit)
+        except driver.GLit.Unbuildable:
+            p.stats["ops_unbuildable"] = p.stats.get("ops_unbuildable", 0) + 1
+            continue
+        opid = f"op{oi}"
+        method = f["name"]
+        L = [f"fn case_{opid}() {{", "    let sh = SHARED.get().unwrap().clone(); let rt = RT.get().unwrap();",
+             f"    emit(format!(\"{{{{\\\"ev\\\":\\\"begin\\\",\\\"id\\\":\\\"{opid}\\\",\\\"side\\\":\\\"g\\\"}}}}\"));"]
+        for (label, vals, info), lit in zip(variants, lits):
+            L.append(f"    {{ set_script(&sh, 200, \"\", 0); let req = {lit}; let c = req.check_restrictions(None);")
+            L.append(f"      let svc = g::{svc_name}::new(None);")
+            L.append(f"      let r = rt.block_on(async {{ svc.{method}(req).await }});")
+            L.append("      let outcome = match r { Ok(_) => \"\\\"result\\\":\\\"value\\\"\".to_string(), Err(e) => format!(\"\\\"result\\\":\\\"error\\\",\\\"kind\\\":\\\"{}\\\"\", err_kind(&e)) };")
+            L.append(f"      report(&sh, {rust_str(label)}, \"{opid}\", format!(\"\\\"check_ok\\\":{{}},{{}}\", c.is_ok(), outcome)); }}")
+        L.append(f"    emit(format!(\"{{{{\\\"ev\\\":\\\"end\\\",\\\"id\\\":\\\"{opid}\\\",\\\"side\\\":\\\"g\\\"}}}}\"));")
+        L.append(f"    emit(format!(\"{{{{\\\"ev\\\":\\\"case-done\\\",\\\"id\\\":\\\"{opid}\\\"}}}}\"));")
+        L.append("}")
+        fns.append((opid, "\n".join(L)))
+        meta[opid] = {"op": op, "variants": variants}
+    if not fns:
+        return
+    extra = (wsdl_driver.LISTENER + "\nuse g::restrictions::CheckRestrictions as _CR;\n"
+             "static SHARED: std::sync::OnceLock<Arc<Shared>> = std::sync::OnceLock::new();\n"
+             "static RT: std::sync::OnceLock<tokio::runtime::Runtime> = std::sync::OnceLock::new();\n"
+             f"const PORT: u16 = {p.port};\n"
+             "fn case_init() {\n"
+             "    let Some(sh) = start_listener(PORT) else { emit(\"{\\\"ev\\\":\\\"bind-failed\\\"}\".to_string()); std::process::exit(3); };\n"
+             "    let _ = SHARED.set(sh);\n"
+             "    let _ = RT.set(tokio::runtime::Builder::new_multi_thread().worker_threads(2).enable_all().build().unwrap());\n"
+             "}\n")
+    events, hung, diags = driver.build_and_run(p, [("init", "")] + fns, extra_items=extra, name="rdrv", timeout=180)
+    if diags is not None:
+        p.inconclusive = f"restriction driver does not compile: {diags[:2]}"
+        return
+    if any(e.get("ev") == "bind-failed" for e in events):
+        p.inconclusive = "listener port could not be bound"
+        return
+    calls = {(e["op"], e["scenario"]): e for e in events if e.get("ev") == "call"}
+    for opid, m in meta.items():
+        for label, vals, info in m["variants"]:
+            c = calls.get((opid, label))
+            if c is None:
+                continue
+            p.stats["restr_samples"] = p.stats.get("restr_samples", 0) + 1
+            if info is None:
+                p.stats["restr_valid_samples"] = p.stats.get("restr_valid_samples", 0) + 1
+                if not c["check_ok"]:
+                    p.finding("restr-spurious", op=m["op"].name.xml, sample=label)
+                elif c["accepts"] != 1:
+                    p.finding("restr-valid-not-sent", op=m["op"].name.xml, sample=label, accepts=c["accepts"], kind=c.get("kind"))
+                continue
+            key = f"{info['part']}/{info['position']}/depth{min(info['depth'], 4)}/{'opt' if info['optional'] else 'req'}/{'rep' if info['repeated'] else 'one'}/{info['facet']}/{info['derivation']}"
+            p.stats["restr_cell:" + key] = p.stats.get("restr_cell:" + key, 0) + 1
+            ctx = dict(op=m["op"].name.xml, **{k: v for k, v in info.items()})
+            if c["check_ok"]:
+                p.finding("restr-missed", **ctx)
+            if c["accepts"] != 0:
+                p.finding("restr-sent-before-check", **ctx, accepts=c["accepts"])
+            if c.get("result") != "error" or c.get("kind") != "Restriction":
+                p.finding("restr-error-kind", **ctx, result=c.get("result"), got_kind=c.get("kind"))
